@@ -687,6 +687,9 @@ func (x *Exec) havoc(fr *Frame, st *State, ms *ModSet, prefix string) {
 		}
 		x.heapSet(st, n, s, cur)
 	}
+	if x.holdClock {
+		return
+	}
 	nn := x.vc.Declare("now", sortInt)
 	x.assumeIn(st, "(>= "+nn+" "+st.now+")")
 	st.now = nn
@@ -1167,7 +1170,11 @@ func (x *Exec) applyContract(fr *Frame, st *State, instr ssa.Instruction, callee
 	ms := NewModSet()
 	x.modifiesToSet(spec, ms, at, env, st)
 	if !spec.Pure || len(ms.heap) > 0 || ms.all {
+		// a `pure` callee that only updates ghost variables allocates nothing the caller can see:
+		// the allocation clock stands still (one fewer unconstrained symbol per call)
+		x.holdClock = spec.Pure && !ms.all
 		x.havoc(fr, st, ms, "c")
+		x.holdClock = false
 	}
 	sig := c.Signature()
 	var rt types.Type = sig.Results()
